@@ -7,85 +7,86 @@ open PolyplyVerif.Output
 
 /-! ### the finite map -/
 
-theorem get_erase_same (fs : FS) (p : Path) : get (erase fs p) p = none := by
+theorem look_erase_same (fs : FS) (p : Path) : look (erase fs p) p = none := by
   induction fs with
-  | nil => simp [erase, get]
+  | nil => simp [erase, look]
   | cons e r ih =>
     obtain ⟨q, c⟩ := e
     by_cases h : q = p
     · simpa [erase, h] using ih
-    · simpa [erase, h, get] using ih
+    · simpa [erase, h, look] using ih
 
-theorem get_erase_ne (fs : FS) (p q : Path) (h : q ≠ p) : get (erase fs p) q = get fs q := by
+theorem look_erase_ne (fs : FS) (p q : Path) (h : q ≠ p) : look (erase fs p) q = look fs q := by
   induction fs with
-  | nil => simp [erase, get]
+  | nil => simp [erase, look]
   | cons e r ih =>
     obtain ⟨x, c⟩ := e
     by_cases hx : x = p
     · have : x ≠ q := by intro e; exact h (e ▸ hx)
-      simpa [erase, hx, get, this, hx ▸ this] using ih
+      simpa [erase, hx, look, this, hx ▸ this] using ih
     · by_cases hq : x = q
-      · simp [erase, hx, get, hq]
-      · simpa [erase, hx, get, hq] using ih
+      · subst hq
+        simp [erase, hx, look]
+      · simpa [erase, hx, look, hq] using ih
 
-theorem get_set_same (fs : FS) (p : Path) (c : String) : get (set fs p c) p = some c := by
-  simp [set, get]
+theorem look_put_same (fs : FS) (p : Path) (c : String) : look (put fs p c) p = some c := by
+  simp [put, look]
 
-theorem get_set_ne (fs : FS) (p q : Path) (c : String) (h : q ≠ p) : get (set fs p c) q = get fs q := by
+theorem look_put_ne (fs : FS) (p q : Path) (c : String) (h : q ≠ p) : look (put fs p c) q = look fs q := by
   have : p ≠ q := fun e => h e.symm
-  simp [set, get, this, get_erase_ne fs p q h]
+  simp [put, look, this, look_erase_ne fs p q h]
 
 theorem length_erase_le (fs : FS) (p : Path) : (erase fs p).length ≤ fs.length := by
   simpa [erase] using List.length_filter_le _ fs
 
-theorem length_erase_lt (fs : FS) (p : Path) (h : get fs p ≠ none) : (erase fs p).length < fs.length := by
+theorem length_erase_lt (fs : FS) (p : Path) (h : look fs p ≠ none) : (erase fs p).length < fs.length := by
   induction fs with
-  | nil => simp [get] at h
+  | nil => simp [look] at h
   | cons e r ih =>
     obtain ⟨q, c⟩ := e
     by_cases hq : q = p
     · have := length_erase_le r p
       simp [erase, hq] at this ⊢
       omega
-    · have h' : get r p ≠ none := by simpa [get, hq] using h
+    · have h' : look r p ≠ none := by simpa [look, hq] using h
       have := ih h'
       simp [erase, hq] at this ⊢
       omega
 
-theorem get_eq_none_of_not_mem_keys (fs : FS) (p : Path) (h : p ∉ keys fs) : get fs p = none := by
+theorem look_eq_none_of_not_mem_keys (fs : FS) (p : Path) (h : p ∉ keys fs) : look fs p = none := by
   induction fs with
-  | nil => simp [get]
+  | nil => simp [look]
   | cons e r ih =>
     obtain ⟨q, c⟩ := e
     simp [keys] at h
     have hq : q ≠ p := fun e => h.1 e.symm
-    simp [get, hq]
+    simp [look, hq]
     apply ih
     simpa [keys] using h.2
 
 /-! ### `shutil.move` -/
 
-theorem get_move_dst (fs : FS) (src dst : Path) (c : String) (h : get fs src = some c) :
-    get (move fs src dst) dst = some c := by
-  simp [move, h, get_set_same]
+theorem look_move_dst (fs : FS) (src dst : Path) (c : String) (h : look fs src = some c) :
+    look (move fs src dst) dst = some c := by
+  simp [move, h, look_put_same]
 
-theorem get_move_src (fs : FS) (src dst : Path) (c : String) (h : get fs src = some c) (hne : src ≠ dst) :
-    get (move fs src dst) src = none := by
+theorem look_move_src (fs : FS) (src dst : Path) (c : String) (h : look fs src = some c) (hne : src ≠ dst) :
+    look (move fs src dst) src = none := by
   simp [move, h]
-  rw [get_set_ne _ _ _ _ hne, get_erase_same]
+  rw [look_put_ne _ _ _ _ hne, look_erase_same]
 
-theorem get_move_other (fs : FS) (src dst p : Path) (h1 : p ≠ src) (h2 : p ≠ dst) :
-    get (move fs src dst) p = get fs p := by
+theorem look_move_other (fs : FS) (src dst p : Path) (h1 : p ≠ src) (h2 : p ≠ dst) :
+    look (move fs src dst) p = look fs p := by
   unfold move
-  cases h : get fs src with
+  cases h : look fs src with
   | none => rfl
-  | some c => simp; rw [get_set_ne _ _ _ _ h2, get_erase_ne _ _ _ h1]
+  | some c => simp; rw [look_put_ne _ _ _ _ h2, look_erase_ne _ _ _ h1]
 
 /-! ### the backup search -/
 
 /-- pigeonhole: `n` distinct occupied backup names need `n` entries -/
 theorem occupied_le_length (name : String) (n : Nat) : ∀ fs : FS,
-    (∀ j, 1 ≤ j → j ≤ n → get fs (.backup name j) ≠ none) → n ≤ fs.length := by
+    (∀ j, 1 ≤ j → j ≤ n → look fs (.backup name j) ≠ none) → n ≤ fs.length := by
   induction n with
   | zero => intro fs _; omega
   | succ n ih =>
@@ -93,7 +94,7 @@ theorem occupied_le_length (name : String) (n : Nat) : ∀ fs : FS,
     have hlt := length_erase_lt fs (.backup name (n + 1)) (h (n + 1) (by omega) (by omega))
     have := ih (erase fs (.backup name (n + 1))) (by
       intro j h1 h2
-      rw [get_erase_ne]
+      rw [look_erase_ne]
       · exact h j h1 (by omega)
       · intro e
         injection e with _ e2
@@ -102,19 +103,19 @@ theorem occupied_le_length (name : String) (n : Nat) : ∀ fs : FS,
 
 theorem findFreeFrom_spec (fs : FS) (name : String) : ∀ fuel s,
     s ≤ findFreeFrom fs name fuel s ∧
-    (∀ j, s ≤ j → j < findFreeFrom fs name fuel s → get fs (.backup name j) ≠ none) ∧
-    (get fs (.backup name (findFreeFrom fs name fuel s)) = none ∨ findFreeFrom fs name fuel s = s + fuel) := by
+    (∀ j, s ≤ j → j < findFreeFrom fs name fuel s → look fs (.backup name j) ≠ none) ∧
+    (look fs (.backup name (findFreeFrom fs name fuel s)) = none ∨ findFreeFrom fs name fuel s = s + fuel) := by
   intro fuel
   induction fuel with
   | zero => intro s; simp [findFreeFrom]; intro j h1 h2; omega
   | succ fuel ih =>
     intro s
     unfold findFreeFrom
-    by_cases h : (get fs (.backup name s)).isNone
+    by_cases h : (look fs (.backup name s)).isNone
     · simp [h]
       refine ⟨?_, ?_⟩
       · intro j h1 h2; omega
-      · left; simpa using h
+      · simpa using h
     · simp [h]
       obtain ⟨a, b, c⟩ := ih (s + 1)
       refine ⟨by omega, ?_, ?_⟩
@@ -128,15 +129,15 @@ theorem findFreeFrom_spec (fs : FS) (name : String) : ∀ fuel s,
 
 /-- the name found is the first free `#name.k#`, k ≥ 1 -/
 theorem findFree_spec (fs : FS) (name : String) :
-    1 ≤ findFree fs name ∧ get fs (.backup name (findFree fs name)) = none ∧
-    ∀ j, 1 ≤ j → j < findFree fs name → get fs (.backup name j) ≠ none := by
+    1 ≤ findFree fs name ∧ look fs (.backup name (findFree fs name)) = none ∧
+    ∀ j, 1 ≤ j → j < findFree fs name → look fs (.backup name j) ≠ none := by
   obtain ⟨a, b, c⟩ := findFreeFrom_spec fs name fs.length 1
   refine ⟨a, ?_, b⟩
   cases c with
   | inl c => exact c
   | inr c =>
     -- all of 1 .. length are occupied; were length+1 occupied too, length+1 names would need length+1 entries
-    cases hg : get fs (.backup name (findFree fs name)) with
+    cases hg : look fs (.backup name (findFree fs name)) with
     | none => rfl
     | some x =>
       exfalso
@@ -159,49 +160,49 @@ theorem least_free_unique (g : Nat → Option String) (k k' : Nat)
 
 /-! ### `_write_file` -/
 
-theorem writeFile_out (fs : FS) (t : Nat) (name c : String) (ht : get fs (.tmp t) = some c) :
-    get (writeFile fs t name) (.file name) = some c := by
+theorem writeFile_out (fs : FS) (t : Nat) (name c : String) (ht : look fs (.tmp t) = some c) :
+    look (writeFile fs t name) (.file name) = some c := by
   unfold writeFile
-  apply get_move_dst
-  cases h : get fs (.file name) with
+  apply look_move_dst
+  cases h : look fs (.file name) with
   | none => simpa using ht
   | some old =>
     simp
-    rw [get_move_other _ _ _ _ (by simp) (by simp)]
+    rw [look_move_other _ _ _ _ (by simp) (by simp)]
     exact ht
 
-theorem writeFile_tmp (fs : FS) (t : Nat) (name c : String) (ht : get fs (.tmp t) = some c) :
-    get (writeFile fs t name) (.tmp t) = none := by
+theorem writeFile_tmp (fs : FS) (t : Nat) (name c : String) (ht : look fs (.tmp t) = some c) :
+    look (writeFile fs t name) (.tmp t) = none := by
   unfold writeFile
-  cases h : get fs (.file name) with
-  | none => simp; exact get_move_src _ _ _ c ht (by simp)
+  cases h : look fs (.file name) with
+  | none => simp; exact look_move_src _ _ _ c ht (by simp)
   | some old =>
     simp
-    apply get_move_src _ _ _ c _ (by simp)
-    rw [get_move_other _ _ _ _ (by simp) (by simp)]
+    apply look_move_src _ _ _ c _ (by simp)
+    rw [look_move_other _ _ _ _ (by simp) (by simp)]
     exact ht
 
-theorem writeFile_backup (fs : FS) (t : Nat) (name old : String) (h : get fs (.file name) = some old) :
-    get (writeFile fs t name) (.backup name (findFree fs name)) = some old := by
+theorem writeFile_backup (fs : FS) (t : Nat) (name old : String) (h : look fs (.file name) = some old) :
+    look (writeFile fs t name) (.backup name (findFree fs name)) = some old := by
   unfold writeFile
   simp [h]
-  rw [get_move_other _ _ _ _ (by simp) (by simp)]
-  exact get_move_dst _ _ _ _ h
+  rw [look_move_other _ _ _ _ (by simp) (by simp)]
+  exact look_move_dst _ _ _ _ h
 
-theorem writeFile_other_none (fs : FS) (t : Nat) (name : String) (h : get fs (.file name) = none)
+theorem writeFile_other_none (fs : FS) (t : Nat) (name : String) (h : look fs (.file name) = none)
     (p : Path) (h1 : p ≠ .tmp t) (h2 : p ≠ .file name) :
-    get (writeFile fs t name) p = get fs p := by
+    look (writeFile fs t name) p = look fs p := by
   unfold writeFile
   simp [h]
-  exact get_move_other _ _ _ _ h1 h2
+  exact look_move_other _ _ _ _ h1 h2
 
-theorem writeFile_other_some (fs : FS) (t : Nat) (name old : String) (h : get fs (.file name) = some old)
+theorem writeFile_other_some (fs : FS) (t : Nat) (name old : String) (h : look fs (.file name) = some old)
     (p : Path) (h1 : p ≠ .tmp t) (h2 : p ≠ .file name) (h3 : p ≠ .backup name (findFree fs name)) :
-    get (writeFile fs t name) p = get fs p := by
+    look (writeFile fs t name) p = look fs p := by
   unfold writeFile
   simp [h]
-  rw [get_move_other _ _ _ _ h1 h2]
-  exact get_move_other _ _ _ _ h2 h3
+  rw [look_move_other _ _ _ _ h1 h2]
+  exact look_move_other _ _ _ _ h2 h3
 
 /-! ### runs -/
 
@@ -209,25 +210,23 @@ theorem user_ne_tmp (p : Path) (h : p.user = true) (t : Nat) : p ≠ .tmp t := b
   intro e; subst e; simp [Path.user] at h
 
 theorem step_deferred_user (st : St) (s : Stage) (hs : s.deferredOnly = true) (p : Path) (hp : p.user = true) :
-    get (step st s).fs p = get st.fs p := by
+    look (step st s).fs p = look st.fs p := by
   cases s with
   | compute l => rfl
   | openDeferred l out =>
-    unfold step
-    cases h : queued st.queue out with
-    | none => simp; exact get_set_ne _ _ _ _ (user_ne_tmp p hp _)
-    | some t => simp; exact get_set_ne _ _ _ _ (user_ne_tmp p hp _)
+    simp only [step]
+    split <;> exact look_put_ne _ _ _ _ (user_ne_tmp p hp _)
   | writeDeferred l out d =>
-    unfold step
-    cases h : queued st.queue out with
-    | none => simp
-    | some t => simp; exact get_set_ne _ _ _ _ (user_ne_tmp p hp _)
+    simp only [step]
+    split
+    · exact look_put_ne _ _ _ _ (user_ne_tmp p hp _)
+    · rfl
   | flush l => simp [Stage.deferredOnly] at hs
   | openDirect l o => simp [Stage.deferredOnly] at hs
   | writeDirect l o d => simp [Stage.deferredOnly] at hs
 
 theorem run_deferred_user (stages : List Stage) : ∀ st : St, (∀ s ∈ stages, s.deferredOnly = true) →
-    ∀ p : Path, p.user = true → get (run stages st).fs p = get st.fs p := by
+    ∀ p : Path, p.user = true → look (run stages st).fs p = look st.fs p := by
   induction stages with
   | nil => intro st _ p _; rfl
   | cons s rest ih =>
@@ -258,7 +257,7 @@ theorem run_append (a b : List Stage) (st : St) : run (a ++ b) st = run b (run a
 /-- state of the writer while only `out` is written through it -/
 def InvQ (out : String) (st : St) : Option String → Prop
   | none => st.queue = []
-  | some c => ∃ t, st.queue = [(t, out)] ∧ get st.fs (.tmp t) = some c
+  | some c => ∃ t, st.queue = [(t, out)] ∧ look st.fs (.tmp t) = some c
 
 theorem step_invQ (out : String) (st : St) (s : Stage) (hs : s.onlyOut out = true) (acc : Option String)
     (h : InvQ out st acc) : InvQ out (step st s) (pending out [s] acc) := by
@@ -270,10 +269,10 @@ theorem step_invQ (out : String) (st : St) (s : Stage) (hs : s.onlyOut out = tru
     cases acc with
     | none =>
       have hq : st.queue = [] := h
-      simp [pending, step, hq, queued, InvQ, get_set_same]
+      simp [pending, step, hq, queued, InvQ, look_put_same]
     | some c =>
       obtain ⟨t, hq, _⟩ := h
-      simp [pending, step, hq, queued, InvQ, get_set_same]
+      simp [pending, step, hq, queued, InvQ, look_put_same]
   | writeDeferred l o d =>
     have ho : o = out := by simpa [Stage.onlyOut] using hs
     subst ho
@@ -283,7 +282,7 @@ theorem step_invQ (out : String) (st : St) (s : Stage) (hs : s.onlyOut out = tru
       simp [pending, step, hq, queued, InvQ]
     | some c =>
       obtain ⟨t, hq, hc⟩ := h
-      simp [pending, step, hq, queued, InvQ, get_set_same, hc]
+      simp [pending, step, hq, queued, InvQ, look_put_same, hc]
   | flush l => simp [Stage.onlyOut] at hs
   | openDirect l o => simp [Stage.onlyOut] at hs
   | writeDirect l o d => simp [Stage.onlyOut] at hs
@@ -317,7 +316,7 @@ theorem specUnchangedB_iff (fs fs' : FS) : specUnchangedB fs fs' = true ↔ Spec
     · have := (List.all_eq_true.mp h) p hm
       simpa [hp] using this
     · simp at hm
-      rw [get_eq_none_of_not_mem_keys fs p hm.1, get_eq_none_of_not_mem_keys fs' p hm.2]
+      rw [look_eq_none_of_not_mem_keys fs p hm.1, look_eq_none_of_not_mem_keys fs' p hm.2]
   · intro h
     apply List.all_eq_true.mpr
     intro p _
@@ -326,15 +325,15 @@ theorem specUnchangedB_iff (fs fs' : FS) : specUnchangedB fs fs' = true ↔ Spec
     | true => simp [h p hp]
 
 theorem all_keys_iff (fs fs' : FS) (ex : Path → Bool) :
-    (keys fs ++ keys fs').all (fun p => !p.user || ex p || get fs' p == get fs p) = true ↔
-    ∀ p : Path, p.user = true → ex p = false → get fs' p = get fs p := by
+    (keys fs ++ keys fs').all (fun p => !p.user || ex p || look fs' p == look fs p) = true ↔
+    ∀ p : Path, p.user = true → ex p = false → look fs' p = look fs p := by
   constructor
   · intro h p hp he
     by_cases hm : p ∈ keys fs ++ keys fs'
     · have := (List.all_eq_true.mp h) p hm
       simpa [hp, he] using this
     · simp at hm
-      rw [get_eq_none_of_not_mem_keys fs p hm.1, get_eq_none_of_not_mem_keys fs' p hm.2]
+      rw [look_eq_none_of_not_mem_keys fs p hm.1, look_eq_none_of_not_mem_keys fs' p hm.2]
   · intro h
     apply List.all_eq_true.mpr
     intro p _
@@ -348,7 +347,7 @@ theorem all_keys_iff (fs fs' : FS) (ex : Path → Bool) :
 theorem specSuccessB_iff (fs fs' : FS) (out content : String) :
     specSuccessB fs fs' out content = true ↔ SpecSuccess fs fs' out content := by
   unfold specSuccessB SpecSuccess
-  cases hold : get fs (.file out) with
+  cases hold : look fs (.file out) with
   | none =>
     simp only [Bool.and_eq_true, beq_iff_eq]
     have := all_keys_iff fs fs' (fun p => p == Path.file out)
@@ -368,11 +367,91 @@ theorem specSuccessB_iff (fs fs' : FS) (out content : String) :
       exact h3 p hp (by simp [n1, n2])
     · rintro ⟨h1, k, k1, k2, k3, k4, k5⟩
       have e : k = findFree fs out :=
-        least_free_unique (fun j => get fs (.backup out j)) k (findFree fs out) k2 k3 k1 f2 f3 f1
+        least_free_unique (fun j => look fs (.backup out j)) k (findFree fs out) k2 k3 k1 f2 f3 f1
       subst e
       refine ⟨h1, k4, ?_⟩
       intro p hp he
       simp at he
       exact k5 p hp he.1 he.2
+
+/-! ### a successful run of a program that writes `out` through the deferred writer -/
+
+theorem success_core (pre : List Stage) (l out content : String) (st : St) (hq : st.queue = [])
+    (hpre : ∀ s ∈ pre, s.onlyOut out = true) (hp : pending out pre none = some content) :
+    SpecSuccess st.fs (run (pre ++ [.flush l]) st).fs out content ∧
+    (run (pre ++ [.flush l]) st).queue = [] ∧
+    ∃ t, look (run pre st).fs (.tmp t) = some content ∧ look (run (pre ++ [.flush l]) st).fs (.tmp t) = none := by
+  have hinv := run_invQ out pre st none hpre (by simpa [InvQ] using hq)
+  rw [hp] at hinv
+  obtain ⟨t, hqueue, htmp⟩ := hinv
+  have huser : ∀ p : Path, p.user = true → look (run pre st).fs p = look st.fs p :=
+    run_deferred_user pre st (fun s hs => onlyOut_deferredOnly out s (hpre s hs))
+  have hrun : (run (pre ++ [.flush l]) st).fs = writeFile (run pre st).fs t out := by
+    rw [run_append]
+    show flushQueue (run pre st).fs (run pre st).queue = _
+    rw [hqueue]; rfl
+  have hrunq : (run (pre ++ [.flush l]) st).queue = [] := by
+    rw [run_append]; rfl
+  refine ⟨?_, hrunq, t, htmp, ?_⟩
+  · rw [hrun]
+    unfold SpecSuccess
+    refine ⟨writeFile_out _ _ _ _ htmp, ?_⟩
+    have hfile := huser (.file out) rfl
+    cases hold : look st.fs (.file out) with
+    | none =>
+      intro p hp hne
+      rw [hold] at hfile
+      rw [writeFile_other_none _ _ _ hfile p (user_ne_tmp p hp t) hne]
+      exact huser p hp
+    | some old =>
+      rw [hold] at hfile
+      obtain ⟨f1, f2, f3⟩ := findFree_spec (run pre st).fs out
+      refine ⟨findFree (run pre st).fs out, f1, ?_, ?_, writeFile_backup _ _ _ _ hfile, ?_⟩
+      · rw [← huser _ rfl]; exact f2
+      · intro j h1 h2
+        rw [← huser _ rfl]; exact f3 j h1 h2
+      · intro p hp n1 n2
+        rw [writeFile_other_some _ _ _ _ hfile p (user_ne_tmp p hp t) n1 n2]
+        exact huser p hp
+  · rw [hrun]; exact writeFile_tmp _ _ _ _ htmp
+
+theorem pending_computes (out : String) (labels : List String) (acc : Option String) :
+    pending out (computes labels) acc = acc := by
+  induction labels with
+  | nil => rfl
+  | cons a r ih => simpa [computes, pending] using ih
+
+theorem pending_append (out : String) (a b : List Stage) : ∀ acc,
+    pending out (a ++ b) acc = pending out b (pending out a acc) := by
+  induction a with
+  | nil => intro acc; rfl
+  | cons s r ih =>
+    intro acc
+    rw [List.cons_append, pending_cons, ih, ← pending_cons]
+
+theorem pending_chunks (l out : String) (chunks : List String) : ∀ a : String,
+    pending out (chunks.map (Stage.writeDeferred l out)) (some a) = some (chunks.foldl (· ++ ·) a) := by
+  induction chunks with
+  | nil => intro a; rfl
+  | cons c r ih => intro a; simp [pending, ih]
+
+theorem onlyOut_computes (out : String) (labels : List String) : ∀ s ∈ computes labels, s.onlyOut out = true := by
+  intro s hs
+  simp [computes] at hs
+  obtain ⟨a, _, rfl⟩ := hs
+  rfl
+
+theorem onlyOut_chunks (l out : String) (chunks : List String) :
+    ∀ s ∈ chunks.map (Stage.writeDeferred l out), s.onlyOut out = true := by
+  intro s hs
+  simp at hs
+  obtain ⟨a, _, rfl⟩ := hs
+  simp [Stage.onlyOut]
+
+theorem pure_computes (labels : List String) : ∀ s ∈ computes labels, s.pure = true := by
+  intro s hs
+  simp [computes] at hs
+  obtain ⟨a, _, rfl⟩ := hs
+  rfl
 
 end PolyplyVerif.Proofs.Output
